@@ -2,7 +2,7 @@
    simulation and the really-applied ledger; the checks on the transaction itself are sound under the relation; the
    theorem for earlier entries of all kinds. *)
 From Virel Require Import Lib.Config Lib.U64 Lib.AMap Lib.CheckLib Model.Emission Model.Ledger Model.Node Model.Mempool
-  Proofs.AMapLemmas Proofs.Conservation Proofs.Staking Proofs.StakedSum Proofs.Mempool Proofs.Mempool2.
+  Proofs.AMapLemmas Proofs.Conservation Proofs.Staking Proofs.StakedSum Proofs.Mempool Proofs.Mempool2 Proofs.MempoolPot.
 Open Scope N_scope.
 Open Scope bool_scope.
 
@@ -139,6 +139,21 @@ Proof.
     apply (IH es' l' l1 st1 st' Hh Hall' (fun t Ht => Hstore t (or_intror Ht)) E0 Ha Hs Hinv').
 Qed.
 
+(* staked total + key-address balances along the earlier transactions *)
+Lemma apply_all_pot ts : forall l l1 h,
+  Forall tx_good ts -> SInv l -> total_bal l < two64 -> apply_all cfg l ts h = Ok l1 -> pot l1 <= pot l.
+Proof.
+  induction ts as [|t1 ts IH]; intros l l1 h Hall HI Hb Ha.
+  - cbn in Ha. injection Ha as <-. lia.
+  - inversion Hall as [|? ? (Hty & Hwf & Htot & _) Hall']; subst.
+    cbn [apply_all] in Ha. apply bind_ok in Ha. destruct Ha as (l' & E1 & Ha).
+    pose proof (apply_tx_pot cfg l t1 h 0 (h - 1) l' HI Hb Hty Hwf Htot E1) as Hp.
+    pose proof (apply_tx_SInv cfg l t1 h 0 (h - 1) l' HI Hwf E1) as HI'.
+    destruct (tx_total cfg t1) as [tot|] eqn:Etot; [|congruence].
+    pose proof (apply_tx_total cfg l t1 h 0 (h - 1) l' tot Hb Hwf Etot E1) as Htt.
+    pose proof (IH l' l1 h Hall' HI' ltac:(lia) Ha). lia.
+Qed.
+
 (* ---- the checks on the transaction itself are sound against a ledger related to the simulation ---- *)
 Section Current2.
 Variable l0 l : ledger.
@@ -154,7 +169,7 @@ Hypothesis Htot : tx_total cfg t <> None.
 Hypothesis Hag : agree l (s_states st).
 Hypothesis Hdr : drel l0 (s_dlgs st) l.
 Hypothesis Hli : linv l.
-Hypothesis Hstk : forall a id pu, tx_data t = TStake a id pu -> staked l + a < two64.
+Hypothesis Hpot : pot l < two64.
 
 Lemma gol_some id d : get_or_load l0 (s_dlgs st) id = Some d -> exists d1, get_dlg l id = Some d1 /\ frel (d_funds d) (d_funds d1).
 Proof.
@@ -214,7 +229,14 @@ Proof.
       { destruct (N.eqb_spec id 0); [subst; congruence|reflexivity]. }
       rewrite Hid. cbn [negb guard bind]. unfold guard in H. destruct (deleg s =? id); [|discriminate H]. cbn [guard bind].
       unfold apply_stake. rewrite Hg1. cbn [of_opt bind].
-      pose proof (Hstk _ _ _ eq_refl) as Hov.
+      assert (Hov : staked l + a < two64).
+      { unfold state_inputs in Hin. rewrite Ed in Hin. injection Hin as <- <-.
+        destruct Hwf as (Hf64 & Hwd & _). rewrite Ed in Hwd. cbn [wf_data] in Hwd.
+        unfold tx_total, data_total in Htot. rewrite Ed in Htot.
+        destruct (wadd a (tx_fee t) <? a) eqn:Ec; [congruence|].
+        destruct (wadd_nowrap_of_check _ _ Hwd Hf64 Ec) as [Hw _]. rewrite Hw in G0.
+        pose proof (odd_ge_at l signer (odd_addr_of_key (tx_signer t))) as Hge.
+        unfold bal_at in Hge. rewrite Hsend in Hge. cbn [fopt] in Hge. unfold pot in Hpot. lia. }
       assert (Hss' : stats_staked l a = Ok (set_staked l (wadd (staked l) a))).
       { unfold stats_staked. rewrite wadd_small by exact Hov. destruct (N.ltb_spec (staked l + a) (staked l)); [lia|reflexivity]. }
       pose proof (Hfr signer) as Hrs.
@@ -289,19 +311,22 @@ End Current2.
    transactions [ts], simulated from the ledger [l], ApplyTxToState applies on the ledger [l1] reached by really applying
    [ts] to [l] (all at height [h], tip height [h - 1]).
    Hypotheses on the ledger: staked-sum invariant, no owner with two funds in one pool, no delegate 0, balances sum below
-   2^64.  On the earlier transactions: [tx_good]; the store returns each of them under its id.  On [t]: version byte names
-   the payload, uint64 amounts, size within the limit; a stake does not push the staked total over 2^64. *)
+   2^64 even together with the staked total.  On the earlier transactions: [tx_good]; the store returns each of them under
+   its id.  On [t]: version byte names the payload, uint64 amounts, size within the limit. *)
 Theorem simulation_sound_general l store ts es t h l1 :
   0 < h < two64 ->
   Forall tx_good ts -> (forall t', In t' ts -> nget store (tx_id t') = Some t') ->
   entries_of cfg ts = Ok es -> apply_all cfg l ts h = Ok l1 ->
-  linv l -> total_bal l < two64 ->
+  linv l -> staked l + total_bal l < two64 ->
   tx_typed t -> wf_tx cfg t -> tx_vsize cfg t <= max_tx_size cfg ->
-  (forall a id pu, tx_data t = TStake a id pu -> staked l1 + a < two64) ->
   validate_mempool_tx cfg false l store t es h = Ok tt ->
   exists l2, apply_tx cfg l1 t h 0 (h - 1) = Ok l2.
 Proof.
-  intros Hh Hall Hstore He Ha Hli Hb Hty Hwf Hvs Hstk H. unfold validate_mempool_tx in H.
+  intros Hh Hall Hstore He Ha Hli Hbs Hty Hwf Hvs H. unfold validate_mempool_tx in H.
+  assert (Hb : total_bal l < two64) by lia.
+  assert (Hp1 : pot l1 < two64).
+  { destruct Hli as (HI & _). pose proof (apply_all_pot ts l l1 h Hall HI Hb Ha) as Hp.
+    pose proof (odd_le_total l) as Ho. unfold pot in *. lia. }
   guard_inv H. pose proof (relay_fee_pos cfg Hok t Hvs G) as Hfee.
   destruct (tx_total cfg t) as [tot|] eqn:Etot; [|discriminate H]. cbn [of_opt bind] in H.
   bind_inv H. guard_inv H. bind_inv H. rename a0 into st.
@@ -329,9 +354,8 @@ Qed.
 Theorem simulation_sound_all_kinds l ts es t h l1 :
   0 < h < two64 -> Forall tx_good ts -> NoDup (map tx_id ts) ->
   entries_of cfg ts = Ok es -> apply_all cfg l ts h = Ok l1 ->
-  linv l -> total_bal l < two64 ->
+  linv l -> staked l + total_bal l < two64 ->
   tx_typed t -> wf_tx cfg t -> tx_vsize cfg t <= max_tx_size cfg ->
-  (forall a id pu, tx_data t = TStake a id pu -> staked l1 + a < two64) ->
   validate_mempool_tx cfg false l (store_of ts) t es h = Ok tt ->
   exists l2, apply_tx cfg l1 t h 0 (h - 1) = Ok l2.
 Proof.
